@@ -86,7 +86,7 @@ func ruleParseBase10(c *Ctx) {
 
 // ---------------------------------------------------------------- R-C01-payload-untouched
 
-const textPayloadUntouched = "R-C01-payload-untouched: between the socket and the handler a request's bytes are cut out by position and length only: no function reachable from the connection's command parser applies a trimming, replacing or case-changing function of package bytes or strings to the request buffer (a bulk is `content[pos:pos+n]`; `bytes.TrimRight(payload, \"\\r\\n\")` takes a cutset and strips every trailing CR or LF of the value itself)"
+const textPayloadUntouched = "R-C01-payload-untouched: between the socket and the handler a request's bytes are cut out by position and length only: no function reachable from the connection's command parser (its methods, and the connection function that creates it over the read buffer) applies a trimming, replacing or case-changing function of package bytes or strings to the request buffer (a bulk is `content[pos:pos+n]`; `bytes.TrimRight(payload, \"\\r\\n\")` takes a cutset and strips every trailing CR or LF of the value itself)"
 
 func ruleC01PayloadUntouched(c *Ctx) {
 	c.S.Rule("R-C01-payload-untouched", textPayloadUntouched, 1)
@@ -100,6 +100,23 @@ func ruleC01PayloadUntouched(c *Ctx) {
 	if len(roots) == 0 {
 		c.S.Undecided("R-C01-payload-untouched", "anchors", "-", "no method of the wire parser found")
 		return
+	}
+	// and the connection's function that hands the read buffer to the parser: the constructor it picks is part of the way
+	// of the bytes (one constructor normalises line ends for text resources)
+	isParserMethod := map[*ssa.Function]bool{}
+	for _, r := range roots {
+		isParserMethod[r] = true
+	}
+	for _, fn := range c.SrcFuncs() {
+		if fn.Signature.Recv() == nil || !c.isPkgType(fn.Signature.Recv().Type(), "clientCxn") {
+			continue
+		}
+		for _, in := range instrsOf(fn) {
+			if call, ok := in.(ssa.CallInstruction); ok && isParserMethod[call.Common().StaticCallee()] {
+				roots = append(roots, fn)
+				break
+			}
+		}
 	}
 	banned := map[string]bool{}
 	for _, p := range []string{"bytes", "strings"} {
@@ -2386,5 +2403,390 @@ func ruleScanPatternApplied(c *Ctx) {
 	}
 	if n == 0 {
 		c.S.Trivial("R-scan-pattern-applied", "none", "-", "no function hands a pattern parameter to the matcher")
+	}
+}
+
+// ---------------------------------------------------------------- R-float-finite
+
+const textFloatFinite = "R-float-finite: a float sum that becomes the stored value of a counter (INCRBYFLOAT, HINCRBYFLOAT: the sum is formatted and stored) is tested with math.IsInf and math.IsNaN first, and the non-finite side does not reach the store: 1e308 + 1e308, or a stored \"inf\", must be refused (“increment would produce NaN or Infinity”) and leave the value as it was. Sibling rule: the hash form tests its sum, the string form has to as well"
+
+func ruleFloatFinite(c *Ctx) {
+	c.S.Rule("R-float-finite", textFloatFinite, 1)
+	isF64 := func(t types.Type) bool {
+		b, ok := t.Underlying().(*types.Basic)
+		return ok && b.Kind() == types.Float64
+	}
+	// same variable: identical value, or loads of one local cell, or a merge that contains it
+	var sameVar func(a, b ssa.Value, depth int) bool
+	sameVar = func(a, b ssa.Value, depth int) bool {
+		if a == b {
+			return true
+		}
+		if depth > 3 {
+			return false
+		}
+		ua, ok1 := a.(*ssa.UnOp)
+		ub, ok2 := b.(*ssa.UnOp)
+		if ok1 && ok2 && ua.Op == token.MUL && ub.Op == token.MUL && ua.X == ub.X {
+			return true
+		}
+		if p, ok := a.(*ssa.Phi); ok {
+			for _, e := range p.Edges {
+				if sameVar(e, b, depth+1) {
+					return true
+				}
+			}
+		}
+		if p, ok := b.(*ssa.Phi); ok {
+			for _, e := range p.Edges {
+				if sameVar(a, e, depth+1) {
+					return true
+				}
+			}
+		}
+		// a sum stored into the cell the other value is loaded from
+		if ub != nil && ok2 && ub.Op == token.MUL {
+			if al, ok := ub.X.(*ssa.Alloc); ok {
+				for _, r := range referrers(al) {
+					if st, ok := r.(*ssa.Store); ok && st.Addr == ssa.Value(al) && st.Val == a {
+						return true
+					}
+				}
+			}
+		}
+		if ua != nil && ok1 && ua.Op == token.MUL {
+			if al, ok := ua.X.(*ssa.Alloc); ok {
+				for _, r := range referrers(al) {
+					if st, ok := r.(*ssa.Store); ok && st.Addr == ssa.Value(al) && st.Val == b {
+						return true
+					}
+				}
+			}
+		}
+		return false
+	}
+	n := 0
+	for _, fn := range c.SrcFuncs() {
+		if fn.Signature.Recv() == nil || !c.isPkgType(fn.Signature.Recv().Type(), "dataStoreCommand") {
+			continue
+		}
+		k := 0
+		for _, in := range instrsOf(fn) {
+			sum, ok := in.(*ssa.BinOp)
+			if !ok || (sum.Op != token.ADD && sum.Op != token.SUB) || !isF64(sum.Type()) {
+				continue
+			}
+			// is the sum formatted in this function (strconv.FormatFloat / fmt with a float)?
+			var formats []*ssa.Call
+			for _, in2 := range instrsOf(fn) {
+				call, ok := in2.(*ssa.Call)
+				if !ok {
+					continue
+				}
+				g := call.Call.StaticCallee()
+				if g == nil || g.String() != "strconv.FormatFloat" || len(call.Call.Args) == 0 {
+					continue
+				}
+				if sameVar(sum, call.Call.Args[0], 0) {
+					formats = append(formats, call)
+				}
+			}
+			if len(formats) == 0 {
+				continue
+			}
+			k++
+			n++
+			key := fmt.Sprintf("%s:float-sum#%d", fnName(fn), k)
+			okAll := true
+			isFormat := func(in2 ssa.Instruction) bool {
+				for _, f := range formats {
+					if in2 == ssa.Instruction(f) {
+						return true
+					}
+				}
+				return false
+			}
+			type stt struct {
+				b        *ssa.BasicBlock
+				inf, nan bool
+			}
+			seen := map[stt]bool{}
+			var walk func(b *ssa.BasicBlock, start int, inf, nan bool)
+			walk = func(b *ssa.BasicBlock, start int, inf, nan bool) {
+				if !okAll {
+					return
+				}
+				if start == 0 {
+					if seen[stt{b, inf, nan}] {
+						return
+					}
+					seen[stt{b, inf, nan}] = true
+				}
+				for _, in2 := range b.Instrs[start:] {
+					if isFormat(in2) && !(inf && nan) {
+						okAll = false
+						return
+					}
+				}
+				if ifi, ok := b.Instrs[len(b.Instrs)-1].(*ssa.If); ok {
+					if tcall, ok := ifi.Cond.(*ssa.Call); ok && tcall.Call.StaticCallee() != nil && len(tcall.Call.Args) > 0 && sameVar(sum, tcall.Call.Args[0], 0) {
+						switch tcall.Call.StaticCallee().String() {
+						case "math.IsInf":
+							walk(b.Succs[0], 0, inf, nan)
+							walk(b.Succs[1], 0, true, nan)
+							return
+						case "math.IsNaN":
+							walk(b.Succs[0], 0, inf, nan)
+							walk(b.Succs[1], 0, inf, true)
+							return
+						}
+					}
+				}
+				for _, s2 := range b.Succs {
+					walk(s2, 0, inf, nan)
+				}
+			}
+			walk(sum.Block(), instrIndex(sum)+1, false, false)
+			if okAll {
+				c.S.OK("R-float-finite", key, c.Pos(sum.Pos()), "the sum is tested with IsInf and IsNaN before it is formatted")
+			} else {
+				c.S.Bad("R-float-finite", key, c.Pos(sum.Pos()), fmt.Sprintf("%s formats and stores a float sum that was not tested with math.IsInf / math.IsNaN: an overflowing increment (or a stored \"inf\") stores +Inf or NaN as the value", fnName(fn)))
+			}
+		}
+	}
+	if n == 0 {
+		c.S.Trivial("R-float-finite", "none", "-", "no float sum is formatted for storing")
+	}
+}
+
+// ---------------------------------------------------------------- R-C07-getex-needs-option
+
+const textGetexOption = "R-C07-getex-needs-option: GETEX changes the deadline only when the request carries an expiry option; without one it is GET. In the GETEX handler every call that can write a deadline is dominated by a test of what the request contains (the number of arguments, or the presence of an option in the argument map) — a deadline computed from defaults (“no option” = “no deadline”) makes a plain GETEX k clear the key's TTL and invalidate a WATCH"
+
+func ruleC07GetexNeedsOption(c *Ctx) {
+	c.S.Rule("R-C07-getex-needs-option", textGetexOption, 1)
+	hs, err := c.M.Handlers()
+	fExp := c.Field("storeKey", "expiresAt")
+	if err != nil || fExp == nil || hs["getex"] == nil {
+		c.S.Trivial("R-C07-getex-needs-option", "handler", "-", "GETEX handler / storeKey.expiresAt not found: not decided")
+		return
+	}
+	h := hs["getex"]
+	var argsParam *ssa.Parameter
+	for _, p := range h.Params {
+		if _, isMap := p.Type().Underlying().(*types.Map); isMap {
+			argsParam = p
+		}
+	}
+	writesDeadline := func(g *ssa.Function) bool {
+		for f := range c.M.Reach(g) {
+			for _, in := range instrsOf(f) {
+				if _, ok := isStoreTo(in, fExp); ok {
+					return true
+				}
+			}
+		}
+		return false
+	}
+	// does the condition look at what the request contains?
+	var looksAtArgs func(v ssa.Value, depth int) bool
+	looksAtArgs = func(v ssa.Value, depth int) bool {
+		if v == nil || depth > 5 || argsParam == nil {
+			return false
+		}
+		switch x := v.(type) {
+		case *ssa.BinOp:
+			return looksAtArgs(x.X, depth+1) || looksAtArgs(x.Y, depth+1)
+		case *ssa.UnOp:
+			return looksAtArgs(x.X, depth+1)
+		case *ssa.Extract:
+			if lk, ok := x.Tuple.(*ssa.Lookup); ok && lk.CommaOk && lk.X == ssa.Value(argsParam) {
+				return x.Index == 1
+			}
+			if ta, ok := x.Tuple.(*ssa.TypeAssert); ok && ta.CommaOk {
+				return x.Index == 1 && looksAtArgs(ta.X, depth+1)
+			}
+		case *ssa.Lookup:
+			return x.X == ssa.Value(argsParam)
+		case *ssa.Call:
+			if b, ok := x.Call.Value.(*ssa.Builtin); ok && b.Name() == "len" && x.Call.Args[0] == ssa.Value(argsParam) {
+				return true
+			}
+		case *ssa.Phi:
+			for _, e := range x.Edges {
+				if looksAtArgs(e, depth+1) {
+					return true
+				}
+			}
+		}
+		return false
+	}
+	n := 0
+	for _, in := range instrsOf(h) {
+		call, ok := in.(*ssa.Call)
+		if !ok {
+			continue
+		}
+		g := call.Call.StaticCallee()
+		if g == nil || !c.InPkg(g) || !writesDeadline(g) {
+			continue
+		}
+		n++
+		key := fmt.Sprintf("%s:deadline-writer#%d", fnName(h), n)
+		guarded := false
+		for b := call.Block(); b != nil && b.Idom() != nil; b = b.Idom() {
+			d := b.Idom()
+			if ifi, ok := d.Instrs[len(d.Instrs)-1].(*ssa.If); ok && looksAtArgs(ifi.Cond, 0) {
+				guarded = true
+			}
+		}
+		if guarded {
+			c.S.OK("R-C07-getex-needs-option", key, c.Pos(call.Pos()), "reached only after a test of what the request contains")
+		} else {
+			c.S.Bad("R-C07-getex-needs-option", key, c.Pos(call.Pos()), fmt.Sprintf("%s calls %s, which writes a deadline, whatever the request contains: GETEX k without an option sets the deadline computed from defaults (none) — the TTL is cleared", fnName(h), fnName(g)))
+		}
+	}
+	if n == 0 {
+		c.S.Trivial("R-C07-getex-needs-option", "none", "-", "the GETEX handler calls nothing that writes a deadline")
+	}
+}
+
+// ---------------------------------------------------------------- R-C05-smove-reply
+
+const textSmoveReply = "R-C05-smove-reply: SMOVE answers 1 whenever it took the member out of the source — also when the destination already held it. In the function that moves a member, every reply stored after the removal from the source is the constant 1, not the number of members the destination gained (which is 0 for a member that is in both sets)"
+
+func ruleC05SmoveReply(c *Ctx) {
+	c.S.Rule("R-C05-smove-reply", textSmoveReply, 1)
+	hs, err := c.M.Handlers()
+	mm := c.M.Muts()
+	fData := c.Field("respValue", "data")
+	if err != nil || hs["smove"] == nil || fData == nil {
+		c.S.Trivial("R-C05-smove-reply", "handler", "-", "SMOVE handler not found: not decided")
+		return
+	}
+	fKs := c.Field("dataStore", "data")
+	n := 0
+	for f := range c.M.Reach(hs["smove"]) {
+		for _, in := range instrsOf(f) {
+			rm, ok := in.(*ssa.Call)
+			if !ok || !mm.dictRem[rm.Call.StaticCallee()] || len(rm.Call.Args) == 0 {
+				continue
+			}
+			if _, fld := loadedField(rm.Call.Args[0]); fld == fKs {
+				continue // the keyspace: dropping the emptied source key
+			}
+			n++
+			key := fmt.Sprintf("%s:reply-after-removal#%d", fnName(f), n)
+			bad := ""
+			seen := map[*ssa.BasicBlock]bool{}
+			var walk func(b *ssa.BasicBlock, start int)
+			walk = func(b *ssa.BasicBlock, start int) {
+				for _, in2 := range b.Instrs[start:] {
+					st, ok := isStoreTo(in2, fData)
+					if !ok {
+						continue
+					}
+					v := st.Val
+					if mi, ok := v.(*ssa.MakeInterface); ok {
+						v = mi.X
+					}
+					if k, isC := constInt(v); !(isC && k == 1) {
+						bad = c.Pos(st.Pos())
+					}
+				}
+				for _, s := range b.Succs {
+					if !seen[s] {
+						seen[s] = true
+						walk(s, 0)
+					}
+				}
+			}
+			walk(rm.Block(), instrIndex(rm)+1)
+			if bad != "" {
+				c.S.Bad("R-C05-smove-reply", key, bad, fmt.Sprintf("%s removes the member from the source and then answers with a computed number (at %s): SMOVE of a member that the destination already holds answers 0 although it was moved", fnName(f), bad))
+			} else {
+				c.S.OK("R-C05-smove-reply", key, c.Pos(rm.Pos()), "after the removal the reply is the constant 1")
+			}
+		}
+	}
+	if n == 0 {
+		c.S.Trivial("R-C05-smove-reply", "none", "-", "no removal from a set reachable from the SMOVE handler")
+	}
+}
+
+// ---------------------------------------------------------------- R-C05-single-operand
+
+const textSingleOperand = "R-C05-single-operand: the intersection (union, difference) of a single set is that set: a set-algebra worker that has collected its operand sets does not answer with the empty set because there are fewer than two of them — only because there are none (or one is missing). `if len(sets) < 2 { return empty }` makes SINTERCARD 1 key answer 0 for a set that has members"
+
+func ruleC05SingleOperand(c *Ctx) {
+	c.S.Rule("R-C05-single-operand", textSingleOperand, 1)
+	n := 0
+	for _, fn := range c.SrcFuncs() {
+		if fn.Signature.Results().Len() < 1 || !c.isPkgType(fn.Signature.Results().At(0).Type(), "redisDict") {
+			continue
+		}
+		k := 0
+		for _, b := range fn.Blocks {
+			ifi, ok := b.Instrs[len(b.Instrs)-1].(*ssa.If)
+			if !ok {
+				continue
+			}
+			// find a comparison of len(<slice of dictionaries>) with a constant anywhere in the condition (|| chains are
+			// lowered to blocks, so the comparison is the condition of some block)
+			bo, ok := ifi.Cond.(*ssa.BinOp)
+			if !ok {
+				continue
+			}
+			lc, ok := bo.X.(*ssa.Call)
+			if !ok {
+				continue
+			}
+			bi, isB := lc.Call.Value.(*ssa.Builtin)
+			if !isB || bi.Name() != "len" {
+				continue
+			}
+			sl, isSl := lc.Call.Args[0].Type().Underlying().(*types.Slice)
+			if !isSl || !c.isPkgType(sl.Elem(), "redisDict") {
+				continue
+			}
+			kc, isC := constInt(bo.Y)
+			if !isC {
+				continue
+			}
+			// the side on which the number of sets is small
+			var small *ssa.BasicBlock
+			maxSmall := int64(-1) // the largest len(sets) on the small side
+			switch bo.Op {
+			case token.LSS:
+				small, maxSmall = b.Succs[0], kc-1
+			case token.LEQ:
+				small, maxSmall = b.Succs[0], kc
+			case token.EQL:
+				small, maxSmall = b.Succs[0], kc
+			case token.GEQ:
+				small, maxSmall = b.Succs[1], kc-1
+			case token.GTR:
+				small, maxSmall = b.Succs[1], kc
+			default:
+				continue
+			}
+			// does the small side return (without looking at the sets)?
+			ret, isRet := small.Instrs[len(small.Instrs)-1].(*ssa.Return)
+			if !isRet {
+				continue
+			}
+			_ = ret
+			k++
+			n++
+			key := fmt.Sprintf("%s:few-operands#%d", fnName(fn), k)
+			if maxSmall >= 1 {
+				c.S.Bad("R-C05-single-operand", key, c.Pos(c.InstrPos(ifi)), fmt.Sprintf("%s answers without looking at the sets when there are at most %d of them: with one operand the result is that operand, not the empty set", fnName(fn), maxSmall))
+			} else {
+				c.S.OK("R-C05-single-operand", key, c.Pos(c.InstrPos(ifi)), "only the case of no set at all is answered without looking at the sets")
+			}
+		}
+	}
+	if n == 0 {
+		c.S.Trivial("R-C05-single-operand", "none", "-", "no worker branches on the number of operand sets")
 	}
 }
